@@ -12,17 +12,17 @@ func init() { Registry["C13"] = C13 }
 
 // C13 — equivalent spellings of a schema generate identical code.
 func C13(c *core.Ctx) {
-	c.Explanation = "B-LEGACY: for each legacy/current keyword pair (id/$id and definitions/$defs in Schema.UnmarshalJSON; definitions/$defs and " +
-		"dependencies/dependentSchemas in Type.UnmarshalJSON; the pairs are identified by their json struct tags, not by Go names) the legacy value is " +
-		"copied into the current field only on a branch dominated by the test that the current field is absent, and nothing else overwrites it; if the " +
-		"fold is moved out of the decoder, every direct read of the current field outside the accessor is reported. " +
-		"Pointer prefixes: both '/$defs/' and '/definitions/' are accepted, matched on a lower-cased copy, with lower-case constants. " +
-		"Single decoder: every *Schema built in pkg/schemas is filled only through encoding/json, and the YAML reader is the pipeline " +
-		"YAML decode -> FixMapKeys -> json.Marshal -> json.Unmarshal in dominance order on one map. " +
-		"Structural type comparison (cmputil.Opts) ignores the raw $ref text. " +
-		"B-PARSER: the name whose extension selects the YAML or JSON parser in the file loader is the first result of QualifiedFileName (directly or through parameters at all call sites), i.e. the resolved file that is opened. " +
-		"Decided: these routing/precedence conditions. A-TYPEFORM: TypeList.UnmarshalJSON is interpreted abstractly on `\"X\"` and on `[\"X\"]` (symbolic X) and must leave equal lists; Type.UnmarshalJSON on `true` and on `{}` must leave equal types — on a stated model of encoding/json for five tiny document shapes, insensitive to how the decoders are written. A-REFNAMES: extractRefNames interpreted on both pointer prefixes in six capitalisations, with and without a file part. " +
-		"Not decided: byte equality of outputs, YAML scalar typing."
+	c.Explanation = "A-LEGACY (semantic): for each legacy/current keyword pair (id/$id and definitions/$defs in Schema.UnmarshalJSON; definitions/$defs and " +
+		"dependencies/dependentSchemas in Type.UnmarshalJSON) the decoder is interpreted abstractly on four documents — the legacy spelling, the current spelling, and both keywords present in either order — " +
+		"with symbolic member values, on a stated flat-object model of encoding/json.Unmarshal: all must succeed, legacy and current must leave the same model (the raw LegacyID field apart) and the current " +
+		"keyword must win when both are present. If the decoder itself does not fold, the SSA discipline B-LEGACY is the fallback (legacy copied only where the current keyword is absent, every read of the " +
+		"current field outside the accessor reported); only when both fail is it a violation. " +
+		"A-TYPEFORM: TypeList.UnmarshalJSON interpreted on `\"X\"` and on `[\"X\"]` (symbolic X) must leave equal lists; Type.UnmarshalJSON on `true` and on `{}` must leave equal types. " +
+		"A-REFNAMES: extractRefNames interpreted on `<file>#<prefix><X>` for both pointer prefixes in six capitalisations, with and without a file part: the definition name is exactly X, the file part exactly <file>. " +
+		"Single decoder (B-LEGACY:decoder): every *Schema built in pkg/schemas is filled only through encoding/json, and the YAML reader is the pipeline YAML decode -> FixMapKeys -> json.Marshal -> json.Unmarshal " +
+		"in dominance order on one map. B-LEGACY:refcmp: structural type comparison (cmputil.Opts) ignores the raw $ref text or compares it by a custom rule. " +
+		"B-PARSER: the name whose extension selects the YAML or JSON parser in the file loader is the first result of QualifiedFileName (directly or through parameters at all call sites), i.e. the file that is opened. " +
+		"Not decided: byte equality of outputs, YAML scalar typing, YAML documents with non-string mapping keys (goccy's behaviour)."
 	c.Trust("encoding/json decodes by struct tag", "goccy/go-yaml yields generic maps")
 	a := engb.New(c.Prog)
 	pairs := []engb.LegacyPair{
